@@ -30,6 +30,9 @@ const (
 type RenderCase struct {
 	Content string `json:"content"`
 	Pos     int    `json:"pos"`
+	// Earlier: positions the same error value pointed at (and was rendered for) before it was
+	// moved to Pos with SetIndex
+	Earlier []int `json:"earlier_positions,omitempty"`
 }
 
 type ParseCase struct {
@@ -64,13 +67,22 @@ func init() {
 // ---------------------------------------------------------------------------------------
 // (b) rendering
 
-func render(content []byte, pos int) (line uint, text, errText string, p any) {
+func render(content []byte, pos int, earlier ...int) (line uint, text, errText string, p any) {
 	defer func() {
 		if r := recover(); r != nil {
 			p = r
 		}
 	}()
 	e := liberrors.NewDocumentError(fs.NewFile("file", content), liberrors.Format(liberrors.ErrGeneric, "msg"))
+	for _, q := range earlier {
+		func() {
+			defer func() { _ = recover() }() // judged as its own case
+			e.SetIndex(libbytes.Index(q))
+			_ = e.Line()
+			_ = e.SourceSubString()
+			_ = e.Error()
+		}()
+	}
 	e.SetIndex(libbytes.Index(pos))
 	line = e.Line()
 	text = e.SourceSubString()
@@ -80,7 +92,7 @@ func render(content []byte, pos int) (line uint, text, errText string, p any) {
 
 func checkRender(t run.TB, c RenderCase) (judged bool) {
 	b := []byte(c.Content)
-	line, text, errText, p := render(b, c.Pos)
+	line, text, errText, p := render(b, c.Pos, c.Earlier...)
 	if p != nil {
 		run.Fail(t, chkRender, c, "rendering panicked: %v", p)
 	}
@@ -188,6 +200,14 @@ func TestRenderRandom(t *testing.T) {
 		j := checkRender(t, c)
 		run.Eval(chkRender, j && nlines >= 2, content, fmt.Sprint(pos))
 		run.Label("random-file:" + map[string]string{"\n": "LF", "\r\n": "CRLF", "\r": "CR"}[nl])
+		// the same error value pointed elsewhere first, rendered, then moved with SetIndex
+		c2 := c
+		for i, n := 0, rapid.IntRange(1, 2).Draw(t, "nearlier"); i < n; i++ {
+			c2.Earlier = append(c2.Earlier, rapid.IntRange(0, len(content)-1).Draw(t, "earlier"))
+		}
+		checkRender(t, c2)
+		run.Eval(chkRender, false)
+		run.Label("re-pointed-error-value")
 	})
 }
 
